@@ -74,8 +74,17 @@ static Item gen_item(Rng& r, uint64_t domain, int kind) {
   uint64_t x = r.below(domain);
   if (it.kind == 0) it.u = x * 0x9e3779b97f4a7c15ULL;
   else if (it.kind == 1) it.u = uint64_t(r.coin() ? -int64_t(x) : int64_t(x));
-  else if (it.kind == 2) { if (r.chance(0.01)) it.s = ""; else { it.s = "k" + std::to_string(x); if (x % 7 == 0) it.s += std::string(20, 'z'); } }
-  else { size_t len = 1 + x % 33; it.s.assign(len, char(x)); for (size_t i = 0; i < len; ++i) it.s[i] = char((x >> (i % 8)) + i * 31); }
+  else if (it.kind == 2) {
+    if (r.chance(0.01)) it.s = "";
+    else {
+      it.s = "k" + std::to_string(x);
+      if (x % 7 == 0) it.s += std::string(20, 'z');
+      if (x % 5 == 1) it.s += std::string(60 + x % 150, char('a' + x % 26));         // long keys (> 64 bytes)
+      if (x % 6 == 2) { it.s += '\0'; it.s += "tail" + std::to_string(x % 3); }       // embedded NUL: the whole string is the key
+      if (x % 11 == 3) it.s.insert(it.s.begin(), '\0');                              // leading NUL
+    }
+  }
+  else { size_t len = 1 + x % 33 + (x % 4 == 0 ? 64 + x % 200 : 0); it.s.assign(len, char(x)); for (size_t i = 0; i < len; ++i) it.s[i] = char((x >> (i % 8)) + i * 31); }
   return it;
 }
 
@@ -203,6 +212,8 @@ static void run_program(Rng& r) {
       } else sk_update(*sk[l], it, w);
       md[l].add(it, w);
       if (it.ignored()) count("empty_string_update");
+      if (it.kind >= 2 && it.s.size() > 64) count("long_key_updates");
+      if (it.kind == 2 && it.s.find('\0') != std::string::npos) count("embedded_nul_string_updates");
     }
     observe(*sk[l], md[l], universe, r, "updates", true);
     if (r.chance(0.4)) {
